@@ -134,7 +134,10 @@ def main(argv):
                 if n_unexpl <= 3:
                     v.violation('AstVm before and after desugar_blocks::run differ (valuation %d: %s) and no guard of C06_desugar_correct accounts for it' % (descr[1], descr[2]),
                                 {'class': 'c06-oracle:before-after', 'source_text': texts[i], 'cfg': cfgs[i], 'case': cases[i], 'valuation': descr[1]})
-            for t in sorted(tags - {1}):
+            # one recorded guard class that applies is an explanation: a co-occurring tag of a class that is not (or no
+            # longer) a recorded finding -- e.g. the time guard, unnecessary since fix 1470ef7 -- is then not reported separately
+            ktags = [t for t in sorted(tags - {1}) if v.is_known(GUARD_CLASS[t])]
+            for t in (ktags or sorted(tags - {1})):
                 v.violation('AstVm before and after desugar_blocks::run differ (valuation %d: %s); guard %d of C06_desugar_correct' % (descr[1], descr[2], t),
                             {'class': GUARD_CLASS[t], 'source_text': texts[i], 'cfg': cfgs[i], 'case': cases[i], 'valuation': descr[1]})
         v.obligation('oracle: AstVm before = AstVm after on %d programs x 6 valuations, except %d programs inside the recorded guard classes' % (len(cases), len(ofail) - n_unexpl),
